@@ -160,9 +160,15 @@ class BaseCollection:
             if istart > end or iend < start:
                 continue
             # An item whose enclosing time range only touches the requested
-            # range is neither skipped nor reported as matched: whether it
-            # matches depends on its type (RFC 4791, 9.9), the filter decides
-            touching = istart == end or iend == start
+            # range, or shares an end point with it, is neither skipped nor
+            # reported as matched: whether it matches depends on its type and
+            # on whether it takes any time at all (RFC 4791, 9.9; an event
+            # with DTEND equal to DTSTART does not), the filter decides.
+            # (The smallest and largest timestamps stand for "no limit".)
+            touching = (
+                istart == end or iend == start or
+                istart == start > radicale_filter.TIMESTAMP_MIN or
+                iend == end < radicale_filter.TIMESTAMP_MAX)
             yield item, simple and not touching and (
                 start <= istart or iend <= end)
 
